@@ -1248,14 +1248,14 @@ fn c14_items(tier: Tier) -> Vec<Deletion> {
         let hidden = matches!(t, T::KwmStr | T::KwmNrStr);
         let head = format!("%{}", kw.to_ascii_lowercase());
         for f in FILLERS {
-            for arg in ["&v", "'a'", "1", "(1)", "\u{428}", "\u{128}"] {
+            for arg in ["&v", "'a'", "1", "(1)", "\u{428}", "\u{128}", "a b", "abc def, b", "a /*c*/ b"] {
                 if arg == "(1)" {
                     continue; // would supply the parenthesis
                 }
                 let spaced = format!(" {f}");
                 let sep: &str = if arg == "1" && f.is_empty() {
                     " "
-                } else if !arg.is_ascii() && !f.contains(char::is_whitespace) {
+                } else if (!arg.is_ascii() || arg.starts_with(|c: char| c.is_ascii_alphabetic())) && !f.contains(char::is_whitespace) {
                     &spaced
                 } else {
                     f
@@ -1311,7 +1311,7 @@ fn c14_items(tier: Tier) -> Vec<Deletion> {
     // the ',' after the first %scan/%substr argument: reported at the call's closing ')'
     for head in ["%scan", "%qscan", "%kscan", "%qkscan", "%substr", "%qsubstr", "%ksubstr", "%qksubstr"] {
         for f in FILLERS {
-            for arg in ["a", "a b", "&v", "(x,y)", "%m(1)"] {
+            for arg in ["a", "a b", "&v", "(x,y)", "%m(1)", "(&a,b)", "('x',y)", "(/*c*/x,y)", "(%m(1),y)", "(&a,b) c"] {
                 for fo in ["", ";", " x"] {
                     let before = format!("%let x={head}{f}({f}{arg}");
                     let at = before.len();
